@@ -16,6 +16,7 @@ import (
 	"github.com/massnetorg/mass-core/wire"
 	"massnet.org/mass-wallet/api"
 	pb "massnet.org/mass-wallet/api/proto"
+	"massnet.org/mass-wallet/masswallet"
 )
 
 //go:norace
@@ -746,6 +747,163 @@ func (f *fz) calls() []apiCall {
 	}
 }
 
+// directCalls are WalletManager methods called below the API layer, with the
+// argument shapes the API layer can pass on (it refuses empty input lists and
+// amount maps, counts above 1000 and negative numbers before they get here;
+// those are not generated). What they add over the API calls: over-long and
+// otherwise unchecked strings, address classes, lock times and payloads that
+// the handlers do not look at.
+//
+//go:norace
+func (f *fz) directCalls() []apiCall {
+	wm := f.inst.WM
+	amtMap := func() map[string]massutil.Amount {
+		m := map[string]massutil.Amount{}
+		for a, v := range f.amounts() {
+			x, err := api.StringToAmount(v)
+			if err != nil {
+				x = massutil.ZeroAmount()
+			}
+			m[a] = x
+		}
+		// the API layer refuses an empty amount map before it gets here
+		if len(m) == 0 {
+			a, _ := massutil.NewAmountFromInt(100000)
+			m[f.addr()] = a
+		}
+		return m
+	}
+	txins := func() []*masswallet.TxIn {
+		var out []*masswallet.TxIn
+		for _, in := range f.inputs() {
+			out = append(out, &masswallet.TxIn{TxId: in.TxId, Vout: in.Vout})
+		}
+		// ... and an empty input list
+		if len(out) == 0 {
+			id, v := f.outpoint()
+			out = append(out, &masswallet.TxIn{TxId: id, Vout: v})
+		}
+		return out
+	}
+	return []apiCall{
+		{"wm.CreateRawTransaction", 4, func(f *fz) (interface{}, func() (interface{}, error)) {
+			ins, am, lt, ch := txins(), amtMap(), f.lockTime(), ""
+			if f.t.Bool(40) {
+				ch = f.addr()
+			}
+			var sub map[string]struct{}
+			if f.t.Bool(40) {
+				sub = map[string]struct{}{f.addr(): {}}
+			}
+			return fmt.Sprintf("inputs=%d amounts=%v lock=%d change=%q sub=%v", len(ins), am, lt, ch, sub), func() (interface{}, error) {
+				h, _, err := wm.CreateRawTransaction(ins, am, lt, ch, sub)
+				if err == nil {
+					f.hexes = append(f.hexes, h)
+				}
+				return &h, err
+			}
+		}},
+		{"wm.AutoCreateRawTransaction", 3, func(f *fz) (interface{}, func() (interface{}, error)) {
+			am, lt := amtMap(), f.lockTime()
+			fee, _ := massutil.NewAmountFromInt(int64(f.t.Int(3)) * 100000)
+			from, ch := "", ""
+			if f.t.Bool(30) {
+				from = f.addr()
+			}
+			if f.t.Bool(30) {
+				ch = f.addr()
+			}
+			var payload []byte
+			if f.t.Bool(20) {
+				payload = make([]byte, f.t.Int(5000))
+			}
+			return fmt.Sprintf("amounts=%v lock=%d fee=%v from=%q change=%q payload=%d", am, lt, fee, from, ch, len(payload)), func() (interface{}, error) {
+				h, _, err := wm.AutoCreateRawTransaction(am, lt, fee, from, ch, payload)
+				if err == nil {
+					f.hexes = append(f.hexes, h)
+				}
+				return &h, err
+			}
+		}},
+		{"wm.EstimateManualTxFee", 2, func(f *fz) (interface{}, func() (interface{}, error)) {
+			ins := txins()
+			n := []int{0, 1, 2, 3, 50, 2000}[f.t.Int(6)]
+			return fmt.Sprintf("inputs=%d outs=%d", len(ins), n), func() (interface{}, error) {
+				a, err := wm.EstimateManualTxFee(ins, n)
+				return &a, err
+			}
+		}},
+		{"wm.GetTxHistory", 3, func(f *fz) (interface{}, func() (interface{}, error)) {
+			n := []int{0, 1, 2, 5, 999, 1000}[f.t.Int(6)] // the API passes 0..1000
+			a := ""
+			if f.t.Bool(50) {
+				a = f.addr()
+			}
+			return fmt.Sprintf("wanted=%d addr=%q", n, a), func() (interface{}, error) {
+				r, err := wm.GetTxHistory(n, a)
+				return &r, err
+			}
+		}},
+		{"wm.NewAddress", 2, func(f *fz) (interface{}, func() (interface{}, error)) {
+			c := []uint16{0, 1, 2, 3, 255, 65535}[f.t.Int(6)]
+			return fmt.Sprintf("class=%d", c), func() (interface{}, error) {
+				a, err := wm.NewAddress(c)
+				if err == nil {
+					if ws := f.inst.Wallets[f.inst.Current]; ws != nil {
+						ws.Issued = append(ws.Issued, IssuedAddr{Index: uint32(len(ws.Issued)), Staking: c == 1, Addr: a})
+					}
+				}
+				return &a, err
+			}
+		}},
+		{"wm.GetAddresses", 2, func(f *fz) (interface{}, func() (interface{}, error)) {
+			c := []uint16{0, 1, 2, 255, 65535}[f.t.Int(5)]
+			return fmt.Sprintf("class=%d", c), func() (interface{}, error) {
+				r, err := wm.GetAddresses(c)
+				return &r, err
+			}
+		}},
+		{"wm.GetUtxo", 2, func(f *fz) (interface{}, func() (interface{}, error)) {
+			a := f.addrs(300)
+			return fmt.Sprintf("addrs=%d", len(a)), func() (interface{}, error) {
+				r, err := wm.GetUtxo(a)
+				return &r, err
+			}
+		}},
+		{"wm.AddressBalance", 2, func(f *fz) (interface{}, func() (interface{}, error)) {
+			a := f.addrs(300)
+			c := []uint32{0, 1, 100, 1 << 31, 0xffffffff}[f.t.Int(5)]
+			return fmt.Sprintf("confs=%d addrs=%d", c, len(a)), func() (interface{}, error) {
+				r, err := wm.AddressBalance(c, a)
+				return &r, err
+			}
+		}},
+		{"wm.WalletBalance", 2, func(f *fz) (interface{}, func() (interface{}, error)) {
+			c := []uint32{0, 1, 100, 1 << 31, 0xffffffff}[f.t.Int(5)]
+			d := f.t.Bool(50)
+			return fmt.Sprintf("confs=%d detail=%v", c, d), func() (interface{}, error) {
+				r, err := wm.WalletBalance(c, d)
+				if err == nil && r == nil {
+					return nil, nil
+				}
+				return r, err
+			}
+		}},
+		{"wm.SignRawTx", 5, func(f *fz) (interface{}, func() (interface{}, error)) {
+			tx, derr := decodeTxHex(f.craftedTx())
+			if derr != nil || tx == nil {
+				tx = wire.NewMsgTx()
+			}
+			pass := []byte(f.passphrase())
+			flag := []string{"ALL", "NONE", "SINGLE", "ALL|ANYONECANPAY", "", "all", "|", "ALL|", strings.Repeat("A", 5000)}[f.t.Int(9)]
+			return fmt.Sprintf("tx(%d in, %d out) flag=%q pass=%d bytes", len(tx.TxIn), len(tx.TxOut), flag, len(pass)), func() (interface{}, error) {
+				r, err := wm.SignRawTx(pass, flag, tx)
+				return &r, err
+			}
+		}},
+	}
+}
+
 // adopt registers a wallet that a fuzzed request brought into being, so that
 // later requests can name it (no ledger expectations are attached to it).
 //
@@ -856,7 +1014,7 @@ func runC19(w *World, p map[string]int) {
 	if len(f.mnemonics) == 0 {
 		f.mnemonics = []string{"abandon abandon abandon abandon abandon abandon abandon abandon abandon abandon abandon about"}
 	}
-	calls := f.calls()
+	calls := append(f.calls(), f.directCalls()...)
 	weights := make([]int, len(calls))
 	for i, c := range calls {
 		weights[i] = c.weight
